@@ -183,6 +183,21 @@ func (cls *CachedLocations) Open(ctx *Context, sys *System, name string, check b
 	}
 
 	cls.Unlock()
+	if check {
+		// The cached location might have been opened without
+		// the check (GetLocation, CreateLocation), or it might
+		// have lost its marker since it was loaded.  Look again,
+		// as loading the location would.
+		var created bool
+		created, err = locationCreated(ctx, loc)
+		if err == nil && !created {
+			err = NewNotFoundError("%s", name)
+		}
+		if err != nil {
+			Log(ERROR, ctx, "CachedLocations.Open", "name", name, "error", err)
+			return nil, err
+		}
+	}
 	return loc, err
 }
 
